@@ -447,7 +447,7 @@ def run(rep, tier):
         checker_cmd="make -C coq Props/C10.vo (coq_makefile, coqc 8.16.1) after regenerating coq/Gen/GenJumpi.v and GenCutWarn.v from src/halmos/sevm.py, GenRunTest.v and GenFrontierCls.v from src/halmos/__main__.py and GenLogFilter.v from src/halmos/logs.py",
         trusted_base=common.TRUSTED_BASE_COMMON + ["the fabricated forge artifacts + stub forge (harness/l3.py) and the extracted reference interpreter coq/Spec/Evm.v as EVM oracle"],
         assumptions=ASSUMPTIONS,
-        rule="cases = (family, parameters, halmos options): counted loops in three syntactic forms (while / negated exit test / count-down) with trip count const n, pinned by a require, the argument, arg & 7, arg % 6; planted Panic(1) when the counter equals K below/at/above --loop in {1,2,4}; a 20-iteration concrete loop under --depth; 2^k-path branch ladders under --width; setUpSymbolic with a loop; an invariant target with a loop; several tests with the same two-path body under --depth in one run (overloads of one name, another name, the same signature in a second contract), judged per test; a path stopped by an unsupported feature (symbolic memory offset / keccak size) in the test body, in a CALL / STATICCALL / DELEGATECALL callee, in a constructor, and in setUp (body / callee); valid instructions halmos has no handler for (SELFDESTRUCT, BLOBHASH, BLOBBASEFEE; the reference interpreter confirms that the execution reaches them); an invariant whose own loop is cut on some frontier states only, in both orders of the frontier; an invariant target whose function is stopped by an unsupported feature (SELFDESTRUCT, symbolic memory offset, symbolic-size REVERT) in its own frame / in a helper it creates and calls, on one side of a branch, --invariant-depth 1 and 2; frontier jobs = the real _compute_frontier on fabricated result states: exhaustive grid own error kind {none, Revert, InvalidOpcode, FailCheatcode, HalmosException} x sub-calls {none, failed flag, internal error, ok, nested internal error} x output data {None, empty, Panic(1), Panic(0x11), Error(...)} x probe reported x visited x panic codes {[1], any, [1, 0x11]} as single states, then random sequences of 3-14 states (non-trivial = a state whose call did not complete); "
+        rule="cases = (family, parameters, halmos options): counted loops in three syntactic forms (while / negated exit test / count-down) with trip count const n, pinned by a require, the argument, arg & 7, arg % 6; planted Panic(1) when the counter equals K below/at/above --loop in {1,2,4}; a 20-iteration concrete loop under --depth; 2^k-path branch ladders under --width; setUpSymbolic with a loop; an invariant target with a loop; several tests with the same two-path body under --depth in one run (overloads of one name, another name, the same signature in a second contract), judged per test; a path stopped by an unsupported feature (symbolic memory offset / keccak size) in the test body, in a CALL / STATICCALL / DELEGATECALL callee, in a constructor, and in setUp (body / callee); valid instructions halmos has no handler for (SELFDESTRUCT, BLOBHASH, BLOBBASEFEE; the reference interpreter confirms that the execution reaches them); an invariant whose own loop is cut on some frontier states only, in both orders of the frontier; an invariant target whose function is stopped by an unsupported feature (SELFDESTRUCT, symbolic memory offset, symbolic-size REVERT) in its own frame / in a helper it creates and calls, on one side of a branch, --invariant-depth 1 and 2; frontier jobs = the real _compute_frontier on fabricated result states: exhaustive grid own error kind {none, Revert, InvalidOpcode, FailCheatcode, HalmosException} x sub-calls {none, failed flag, internal error, ok, nested internal error} x output data {None, empty, Panic(1), Panic(0x11), Error(...)} x probe reported x visited x panic codes {[1], any, [1, 0x11]} (quick tier: the last two only for calls ended by a Revert or by an internal error of their own) as single states, then random sequences of 3-14 states (non-trivial = a state whose call did not complete); "
              "non-trivial = some concrete execution reaches the planted failure on the reference interpreter (or the loop is concrete); distinct by hash of the case",
         partial="the L3 tie observes incompleteness only through the planted failure; --depth cuts inside setUp / targets are observed at L3 only; the early exit (ShutdownError while a stuck path is being confirmed) is excluded by hypothesis in the runner theorems; the frontier theorems take `probe already reported` / `state already visited` as arbitrary inputs per result state and count an ERROR line of the frontier computation as the report (a later invariant test of the same contract reuses the cached frontier and does not repeat the line); setup(): a path with an error of its own is reported only when the failing opcode is neither REVERT nor INVALID (not modelled)",
     )
